@@ -1,1 +1,5 @@
 import AdaptiveModel.Seq
+import AdaptiveModel.Runner
+import AdaptiveModel.Drv.Util
+import AdaptiveModel.Drv.Seq
+import AdaptiveModel.Drv.Runner
